@@ -44,6 +44,7 @@ type c11Cfg struct {
 	Ops       int     `json:"ops"`
 	ElapsedS  float64 `json:"elapsed_between_save_and_load_s"`
 	ElapsedCl string  `json:"elapsed_class"`
+	Shrink    bool    `json:"population_shrunk_survivors_hot,omitempty"`
 }
 
 type c11Ent struct {
@@ -164,6 +165,28 @@ func c11RoundTrip[K comparable, V any](r *Run, idx int, cfg c11Cfg, mkKey func(i
 		}
 		if rng.Intn(50) == 0 {
 			c.Delete(mkKey(rng.Intn(universe)))
+		}
+	}
+	if cfg.Shrink {
+		// a population that shrank while the survivors stayed hot: every resident key is read until its frequency
+		// saturates, then most keys are deleted - the saved frequencies then add up to more than one aging period
+		// of a sketch sized for the survivors
+		c.Wait()
+		var ks []K
+		c.Range(func(k K, _ V) bool { ks = append(ks, k); return true })
+		var keep []K
+		for i, k := range ks {
+			if i%8 != 0 {
+				c.Delete(k)
+			} else {
+				keep = append(keep, k)
+			}
+		}
+		c.Wait()
+		for rep := 0; rep < 30; rep++ {
+			for _, k := range keep {
+				c.Get(k)
+			}
 		}
 	}
 	c.Wait()
@@ -296,6 +319,16 @@ func c11RoundTrip[K comparable, V any](r *Run, idx int, cfg c11Cfg, mkKey func(i
 		}
 		fail("loaded-cache-inconsistent/"+is.Key, is.What)
 	}
+	// the adaptive split of the loaded cache: whatever was restored of it, window plus protected capacity must be
+	// what a cache of this size has (the climber only ever moves capacity between the two), and the window keeps >= 1
+	if fresh, err := theine.NewBuilder[K, V](int64(cfg.NewSize)).Build(); err == nil {
+		p0, w0 := fresh.VerifStore().VerifSplit()
+		fresh.Close()
+		if got.WinCap+got.ProtCap != p0+w0 || got.WinCap < 1 {
+			fail("loaded-cache-inconsistent/window-plus-protected-capacity-not-conserved", fmt.Sprintf("after the load the window capacity is %d and the protected capacity %d (sum %d); a cache of MaxSize %d has %d + %d = %d (saved cache: window %d, protected %d)",
+				got.WinCap, got.ProtCap, got.WinCap+got.ProtCap, cfg.NewSize, w0, p0, w0+p0, ref.WinCap, ref.ProtCap))
+		}
+	}
 	_ = refSn
 	r.Eval(1)
 	r.Count("entries_saved_unexpired", int64(totalSaved))
@@ -304,7 +337,10 @@ func c11RoundTrip[K comparable, V any](r *Run, idx int, cfg c11Cfg, mkKey func(i
 	if splitMoved {
 		r.Count("round_trips_with_moved_adaptive_split", 1)
 	}
-	r.Distinct(fmt.Sprintf("%s/split-moved=%v/%s/%s/%s/%s", cfg.Types, splitMoved, cfg.Costs, cfg.TTLs, cfg.Target, cfg.ElapsedCl))
+	r.Distinct(fmt.Sprintf("%s/split-moved=%v/%s/%s/%s/%s/shrunk=%v", cfg.Types, splitMoved, cfg.Costs, cfg.TTLs, cfg.Target, cfg.ElapsedCl, cfg.Shrink))
+	if cfg.Shrink {
+		r.Count("round_trips_of_a_shrunk_hot_population", 1)
+	}
 	r.Sample(8, wit)
 }
 
@@ -342,6 +378,7 @@ func runC11(r *Run) {
 		cfg := c11Cfg{MaxSize: []int{20, 100, 200, 500, 1000}[rng.Intn(5)], Costs: []string{"unit", "mixed"}[rng.Intn(2)],
 			TTLs: []string{"none", "some", "all-levels"}[rng.Intn(3)], Workload: []string{"uniform", "recency", "frequency", "phases"}[rng.Intn(4)]}
 		cfg.Ops = 30*cfg.MaxSize + rng.Intn(60*cfg.MaxSize)
+		cfg.Shrink = rng.Intn(4) == 0
 		cfg.Target = []string{"same", "same", "x2", "/2", "/7", "1"}[rng.Intn(6)]
 		switch cfg.Target {
 		case "same":
